@@ -1743,6 +1743,7 @@ class Parameter(_ParameterBase):
                         val, hooked = self.set_hook(obj, val), True
                     self._validate(val)
                 self._validate_settable(obj, val, ref)
+            previous = refs.get(name, Undefined)
             if ref is not None:
                 obj.param._update_ref(name, ref)
             elif name in refs and not syncing:
@@ -1750,7 +1751,15 @@ class Parameter(_ParameterBase):
             if is_async:
                 # Scheduled once the reference is in place: without a
                 # running event loop the executor runs the task right away
-                async_executor(partial(obj.param._async_ref, name, awaitable, ref))
+                try:
+                    async_executor(partial(obj.param._async_ref, name, awaitable, ref))
+                except Exception:
+                    # ... and what it raises (a result that is not valid for
+                    # the parameter) comes out of this assignment: the
+                    # reference is not installed, the previous link is back
+                    if obj._param__private.refs.get(name, Undefined) is ref:
+                        obj.param._update_ref(name, previous)
+                    raise
             if not resolved:
                 return
 
